@@ -17,6 +17,7 @@
 (***************************************************************************)
 EXTENDS ReceiveWrite, TLC, Json, IOUtils, SequencesExt
 CONSTANTS RF1,          \* replication factors explored with one series
+          Outcomes2,    \* outcomes explored for the two-series shapes (subset of Outcomes)
           RF2,          \* replication factors explored with two series on N2 nodes
           N2,
           Outcomes,     \* subset of {"ok","conflict","unavailable","other","noconn"}; "noconn" = the handler
@@ -50,16 +51,17 @@ ST == SuccessThreshold(rf, Replicated)
 FT == FailureThreshold(rf, Replicated)
 TH == IF ReplThresholdIsQuorum THEN ST ELSE FT
 
+OutcomesOf(k) == IF k = 1 THEN Outcomes ELSE Outcomes2
 Shapes == { [rf |-> r, nn |-> r, nser |-> 1] : r \in RF1 } \cup { [rf |-> r, nn |-> N2, nser |-> 2] : r \in RF2 }
 
 Init == /\ \E sh \in Shapes : rf = sh.rf /\ nn = sh.nn /\ nser = sh.nser
         /\ start \in { f \in [1..nser -> 0..(nn - 1)] : f[1] = 0 }
         /\ rep \in 0..rf
-        /\ local \in (IF "notready" \in Outcomes THEN -1..(nn - 1) ELSE {-1})
-        /\ \E down \in (IF "noconn" \in Outcomes THEN SUBSET ((0..(nn - 1)) \ {local}) ELSE {{}}) :
+        /\ local \in (IF "notready" \in OutcomesOf(nser) THEN -1..(nn - 1) ELSE {-1})
+        /\ \E down \in (IF "noconn" \in OutcomesOf(nser) THEN SUBSET ((0..(nn - 1)) \ {local}) ELSE {{}}) :
               \* a local write fails with conflicts, "not ready" or something else, never with a gRPC status;
               \* only a local write can be "not ready"; the receiver is never in back-off towards itself
-              outc \in { f \in [ErsOf(rf, nn, nser, start, rep) -> Outcomes] :
+              outc \in { f \in [ErsOf(rf, nn, nser, start, rep) -> OutcomesOf(nser)] :
                            \A er \in DOMAIN f :
                               ((f[er] = "noconn") <=> (er[1] \in down))
                               /\ ((er[1] = local) => (f[er] \in {"ok", "conflict", "notready", "other"}))
